@@ -6,6 +6,10 @@ from common import xr, xvec, from_xr, from_xvec
 ID = "C07"
 TARGETS = ["Proofs.C07", "Proofs.GenEq.Cmp"]
 GEN_PREFIXES = ["cmp."]
+# Proofs.GenEq.Cmp only ties the hand-written model to the source; the C07 theorems are about the model, which is
+# also tied by the exhaustive order-type correspondence (see check.py, tie-only obligations)
+TIE_ONLY = {"prefix": "cmp.", "modules": ["Proofs.GenEq.Cmp"],
+            "gen_op_heads": ["gwithinA", "gwithinS", "gthresh", "gtprob", "gintervalBody"]}
 THEOREMS = {
     "Proofs.C07": ["VerifModel.C07." + t for t in [
         "C07_within_denotes", "C07_missing_no_event", "C07_missing_threshold", "C07_threshold_agrees",
